@@ -223,8 +223,8 @@ chk('C13', 'other',
     'comment regex literals with the documented languages (no length bound).',
     'NOT claimed as a solver verdict: pd.read_table assembly / padding and the IGNORE/ACCEPT filters (two concrete '
     'companion probes, sampling: the real read_nonmem_dataset on two fixed data texts / 16 filter lists must agree cell '
-    'by cell, with exact float equality, with the composition of the reference kernel), TIME/DATE, the write/read '
-    'cycle. Trusted: the '
+    'by cell, with exact float equality, with the composition of the reference kernel; a third probe writes seven model '
+    'variants with write_model and compares the dataset read back), TIME/DATE. Trusted: the '
     'reference reader, np.float64 recorder (Python float syntax), StringIO constructor recorder, pandas '
     '`pat.split(line.strip())` (checked at run time), stub $INPUT stream. Counterexamples are re-evaluated unstubbed.',
     'symbolic execution (CrossHair+z3) of real dataset lexing code + z3 regex language equivalence',
